@@ -744,6 +744,17 @@ impl Engine for SparseBitSetCodec {
                 let h = rng.below(mh.min(6) as u64 + 1) as u8;
                 b[0] = bfc | (h << 2);
             }
+            // the shortest encodings of "everything": a tree of (nearly) maximal height whose first nodes are
+            // filled markers (all-zero nodes)
+            if rng.chance(1, 5) {
+                let bfc = rng.below(4) as u8;
+                let mh = encode::bf_max_height([2, 4, 8, 32][bfc as usize]) as u8;
+                let h = mh.saturating_sub(rng.below(3) as u8);
+                b = vec![bfc | (h << 2)];
+                for _ in 0..1 + rng.below(3) {
+                    b.push(*rng.pick(&[0u8, 0, 0, 1, 0x10, 0x80]));
+                }
+            }
             Some(b)
         } else {
             None
